@@ -15,6 +15,7 @@ def names(seq, n):
     if seq == 'short': return ['n%03d' % i for i in range(n)]
     if seq == 'long':  return ['%s_%04d' % ('W' * 248, i) for i in range(n)]
     if seq == 'mixed': return [('m%d_' % i) + 'x' * ((i * 37) % 200) for i in range(n)]
+    if seq == 'case':  return [('Name%03d' if i % 2 else 'name%03d') % (i // 2) for i in range(n)]       # pairs that differ only in case (distinct names unless the directory is case-insensitive)
 
 def job(j):
     kind, cid, base, prep, modes = j
@@ -65,13 +66,21 @@ def job(j):
         rc, out = run([DEBUGFS, '-w', '-f', sp, p], timeout=60)
         with open(p, 'rb') as f: data = f.read()
         rc0, out0 = run([E2FSCK, '-fn', p], timeout=30)
+        if rc0 != 0 and Image(data).ro & 0x100:
+            # debugfs does not maintain the quota files: let e2fsck settle the usage once, the repair modes then start from that image
+            run([E2FSCK, '-fy', p], timeout=60)
+            with open(p, 'rb') as f: data = f.read()
+            rc0, out0 = run([E2FSCK, '-fn', p], timeout=30)
         if rc0 != 0:
             # the image was prepared with debugfs from a clean corpus image; if the independent checker finds it consistent, an e2fsck that
             # complains about it is itself the violation (a healthy filesystem must check clean), otherwise the preparation went wrong
             try: vv = xcheck(data)
             except Exception as e: vv = [('S', 'unreadable', repr(e))]
             if not vv:
-                return (cid, 'bad', [('-fn', 'e2fsck -fn exits %s on a prepared filesystem that the independent checker finds consistent' % rc0, out0[-300:])], 1)
+                cls = ''
+                if prep[0] == 'symlinks' and Image(data).incompat & 0x8000 and 'Block bitmap differences:  -' in out0 and not re.search(r'^(Inode|Entry|Symlink|Extended|Directory) ', out0, re.M):
+                    cls = '[e2fsck-skips-accounting-of-inline-data-symlinks] '
+                return (cid, 'bad', [('-fn', cls + 'e2fsck -fn exits %s on a prepared filesystem that the independent checker finds consistent' % rc0, out0[-300:])], 1)
             return (cid, 'skip', 'prepared image not clean (%s): %s' % (rc0, out0[-200:]), 0)
     elif kind == 'd':
         data = fsweep.make_multi(base, j[3 + 2] if False else cid[1])
@@ -159,6 +168,10 @@ def main(tier, only=None):
                 for n in Ns:
                     if seq == 'long' and n > 330: continue
                     jobs.append(('b', 'b/%s/%s/n%d' % (base, seq, n), base, ('links', seq, n), MODES if (not quick or n % 3 == 0) else [('-fyD',)]))
+        # a filesystem with the casefold feature whose directories are ordinary ones: names that differ only in case are different names there
+        for seq in ('case', 'short'):
+            for n in (range(0, 200) if not quick else list(range(0, 40)) + list(range(40, 200, 9))):
+                jobs.append(('b', 'b/casefold/%s/n%d' % (seq, n), 'casefold', ('links', seq, n), MODES if (not quick or n % 3 == 0) else [('-fyD',)]))
     if 'c' in parts:
         for base, bs in (('ext2', 1024), ('ext3', 1024)) if not quick else (('ext2', 1024),):
             for nblk in (range(0, 301) if not quick else list(range(0, 30)) + list(range(30, 301, 6)) + [267, 268, 269, 270]):
@@ -179,7 +192,8 @@ def main(tier, only=None):
         runs += n
         if st == 'skip': skipped += 1; continue
         for mode, what, det in (bad or []):
-            ck.violation('%s :: e2fsck %s' % (cid, mode), {'case': cid, 'base': j[2], 'prep': j[3], 'mode': mode, 'what': what, 'detail': det})
+            m = re.match(r'\[([a-z0-9-]+)\] ', what)
+            ck.violation('%s :: e2fsck %s' % (cid, mode), {'case': cid, 'base': j[2], 'prep': j[3], 'mode': mode, 'what': what, 'detail': det, 'root_cause_class': m.group(1) if m else None})
     ck.part('abc_healthy_images', jobs=len(jobs), e2fsck_runs=runs, skipped_because_prepared_image_not_clean=skipped)
     ndj = 0
     if 'd' in parts:
@@ -202,7 +216,7 @@ def main(tier, only=None):
         ck.part('d_summary_only_damage', mutants=ndj)
     ck.add(evaluations=runs, distinct_nontrivial=len(jobs) + ndj, states=len(jobs) + ndj, transitions=runs, traces_validated_against_impl=runs,
            rule='(a) every corpus image x 5 repair modes; (b) test directory holding the first n of a fixed name sequence (hard links), every n in 0..400, 2-3 sequences (short, 252-byte, mixed lengths), '
-                'on linear/indexed/csum/inline/bigalloc bases x modes; (c) a file of every block count 0..300 x {bmap2extent, -D}; (e) a file whose first n blocks are every pattern over {hole, written, unwritten(preallocated)} (quick n=4, thorough n=6; free space pre-filled with stale bytes) x modes; (f) a directory of symlinks of every target length 1..120, each with a small or a 200-byte extended attribute, on bases with 128- and 256-byte inodes x modes; (d) every single-field mutant of bitmap bits, counts, flags and checksum fields '
+                'on linear/indexed/csum/inline/bigalloc bases x modes, plus names differing only in case in ordinary directories of a casefold-feature filesystem; (c) a file of every block count 0..300 x {bmap2extent, -D}; (e) a file whose first n blocks are every pattern over {hole, written, unwritten(preallocated)} (quick n=4, thorough n=6; free space pre-filled with stale bytes) x modes; (f) a directory of symlinks of every target length 1..120, each with a small or a 200-byte extended attribute, on bases with 128- and 256-byte inodes x modes; (d) every single-field mutant of bitmap bits, counts, flags and checksum fields '
                 'x e2fsck -fy.  Oracle: exit in {0,1} and xck.tree (path,type,bytes,size,mode,owner,nlink,target,xattrs) identical before/after; (d) also second run clean',
            samples=[j[1] for j in jobs[:2]] + [j[1] for j in jobs[-2:]])
     ck.assumptions += ['xck.tree is the observer of "files" (independent reader); casefold/encrypted directories not in scope']
